@@ -58,7 +58,7 @@ ASIS = {
         ("C17_ionq_nocontrol_asis.v", "C17_ionq_nocontrol_repaired.v",
          ("ionq", [dict(name="CNOT", target=[1], control=None, k=None)], None)),
     "C17/projectq/MEASURE-target-altered":
-        ("C17_pq_MEASURE_multitarget_asis.v", None,
+        ("C17_pq_MEASURE_multitarget_asis.v", "C17_pq_MEASURE_multitarget_repaired.v",
          ("projectq", [dict(name="MEASURE", target=[2, 0], control=None, k=None)], None)),
     "C17/repr/empty-target-omitted":
         ("C17_repr_target_asis.v", "C17_repr_repaired.v", ("repr", dict(name="FOO", target=[], control=None, k=None), None)),
@@ -66,7 +66,8 @@ ASIS = {
         ("C17_repr_control_asis.v", "C17_repr_repaired.v", ("repr", dict(name="CX", target=[0], control=[], k=None), None)),
 }
 PQ_TABLE_DEFECTS = ["C17/projectq/PHASE-written-as-R", "C17/projectq/MEASURE-dropped-by-reader",
-                    "C17/projectq/width-not-restored"]
+                    "C17/projectq/width-not-restored", "C17/projectq/CNOT-extra-controls-dropped",
+                    "C17/projectq/MEASURE-target-altered"]
 FALLBACK = {"GateTables": VERIF / "translator" / "expected" / "C17_GateTables.v",
             "FormatTables": VERIF / "translator" / "expected" / "C17_FormatTables.v"}
 
@@ -999,7 +1000,7 @@ def prove_all(ck, present):
         r3 = ck.prove(props_file=COQ / "props" / "C17_pq_repaired.v")
         if not r3.ok:
             ck.proof_violation(r3, "(repaired variant)")
-        ck.notes["projectq_variant"] = "repaired: full theorem C17_projectq_roundtrip"
+        ck.notes["projectq_variant"] = "repaired: full theorems C17_projectq_roundtrip, C17_projectq_written_roundtrips"
     else:
         ck.notes["projectq_variant"] = "as-is: C17_projectq_roundtrip_partial + _refuted witnesses"
     ck.notes["variants"] = variants
